@@ -16,6 +16,11 @@ CLAIMED = {
     text='TLC derives the elementary gate tableaux from the dense gate matrices by conjugation over Z[i], generates the complete 1- and 2-qubit Clifford groups modulo phase by closure (24 and 11520 states = every (r,S) with S in Sp(2n,F2) and every phase vector) checking the phase-exact automorphism law and composition = sequential application in every state, and enumerates every interleaving of append/query/apply/export of the CliffordCircuit state machine up to a bounded length. Every group element is replayed through the real CliffordCircuit, apply_clifford_on_pauli, clifford_array_to_F2 and the state-vector simulator (U^dagger P U); every history is executed on a real object and the recorded trace is validated by TLC against the cache-free specification, so a query that does not reflect all appended gates is rejected.',
     note='Trusted: TLC/SANY, value parser, exact integer comparison; dense comparisons use tolerance 1e-9. Exhaustive for n<=2 and histories of length <=3 (<=4 with vocabulary {H,S,CX}; full vocabulary in thorough); random histories to length 40 on <=4 qubits.',
     technique='TLA+ state-machine spec of CliffordCircuit + Pauli-automorphism tableau; TLC exhaustive closure/interleaving model checking; replay of the state graph into the code; TLC trace validation of recorded histories'),
+ 'C09': dict(
+    cat='model_checking', ref='6/C09',
+    text='TLC generates Sp(2n,F2) as a state machine (closure under all transvections), checks the symplectic condition and the two-sided closed-form inverse in every state and that the number of states equals the order formula (n=1,2 also against a brute-force count over all binary matrices; n=3 in thorough). The real from_int_tuple/to_int_tuple/inverse are then driven over the COMPLETE mixed-radix index domain in lexicographic order and the recorded trace is validated by TLC (successor tuple, symplectic image, left inverse, two-sided inverse): with |domain| = |group| this is bijectivity. Every symplectic matrix of the model is mapped back to an index; find_transvection is validated on every ordered pair of non-zero vectors.',
+    note='Trusted: TLC/SANY, JSON trace encoding (rows packed as integers < 2^20). Complete for n<=2 (quick), n<=3 enumeration and n<=4 vector pairs (thorough); random tuples to n=10.',
+    technique='TLA+ spec of Sp(2n,F2) + TLC exhaustive group generation; TLC trace validation of the complete recorded enumeration'),
 }
 
 NOT_APPLICABLE = {
